@@ -43,6 +43,7 @@ type params struct {
 	FaultBounds  int     `json:"fault_boundaries"`
 	LateFeeChain bool    `json:"late_fee_chain"` // validators set their relayer fee for the last chain only late in the history
 	Tax          bool    `json:"tax"`
+	Activations  bool    `json:"activations,omitempty"` // the chains are re-activated in mid-history (activate.go)
 }
 
 type entry struct {
@@ -85,6 +86,15 @@ type mon struct {
 	ethH          uint64
 	stopped       bool
 	lastObserved  []string
+	plan          []*actPlan // planned re-activations of served chains (activate.go)
+	acts          []actDone
+	nAct          int
+	forkActs      int
+	activated     map[string]bool // chains re-activated in this history so far
+}
+
+func batchKey(bt skywaytypes.InternalOutgoingTxBatch) string {
+	return fmt.Sprintf("%s:%d", strings.ToLower(bt.TokenContract.GetAddress().Hex()), bt.BatchNonce)
 }
 
 func descs(p []pendingTx) []string {
@@ -257,7 +267,7 @@ func run(c fw.Case, tier string, rec *fw.Recorder) {
 		return
 	}
 	m := &mon{rec: rec, r: r, w: w, c: w.C, p: p, ledger: map[uint64]*entry{}, tokenOf: map[string]string{}, supply: map[string]sdkmath.Int{},
-		evNonce: map[string]uint64{}, events: map[string]*event{}, seenObs: map[string]bool{}, todo: map[string][]sdk.Msg{}, claimed: map[string]bool{}, ethH: 1000}
+		evNonce: map[string]uint64{}, events: map[string]*event{}, seenObs: map[string]bool{}, todo: map[string][]sdk.Msg{}, claimed: map[string]bool{}, activated: map[string]bool{}, ethH: 1000}
 	dset := map[string]bool{}
 	for _, t := range w.Tokens {
 		m.tokenOf[tokKey(t.ChainRef, t.ERC20)] = t.Denom
@@ -278,6 +288,7 @@ func run(c fw.Case, tier string, rec *fw.Recorder) {
 		}
 	}
 	rec.Sample(map[string]any{"params": p, "tokens": w.Tokens})
+	m.planActivations(c.Seed)
 
 	faultEvery := 0
 	if p.FaultBounds > 0 {
@@ -295,6 +306,10 @@ func run(c fw.Case, tier string, rec *fw.Recorder) {
 			m.lateFee = ""
 			m.block(true)
 			continue
+		}
+		m.activationOps(b)
+		if m.stopped {
+			break
 		}
 		if b%400 == 10 {
 			w.KeepAlive()
@@ -407,7 +422,7 @@ func (m *mon) block(valsBusy bool) {
 		m.emitDeposit()
 	}
 	for _, bt := range pre.batches {
-		key := fmt.Sprintf("%s:%d", strings.ToLower(bt.TokenContract.GetAddress().Hex()), bt.BatchNonce)
+		key := batchKey(bt)
 		if !m.claimed[key] && r.Intn(12) == 0 {
 			m.claimed[key] = true
 			m.emitBatchExecuted(bt.ChainReferenceID, bt.TokenContract.GetAddress().Hex(), bt.BatchNonce)
@@ -537,6 +552,9 @@ func (m *mon) block(valsBusy bool) {
 			switch cl := claim.(type) {
 			case *skywaytypes.MsgSendToPalomaClaim:
 				m.rec.Count("deposits_observed", 1)
+				if m.activated[ch] {
+					m.rec.Count("deposits_observed_after_activation", 1)
+				}
 				if d, ok := m.tokenOf[tokKey(ch, cl.TokenContract)]; ok {
 					expSupply[d] = expSupply[d].Add(cl.Amount)
 					m.rec.Count("deposits_minted", 1)
@@ -548,6 +566,9 @@ func (m *mon) block(valsBusy bool) {
 					if bt.BatchNonce == cl.BatchNonce && strings.EqualFold(bt.TokenContract.GetAddress().Hex(), cl.TokenContract) {
 						matched = true
 						m.rec.Count("batches_executed", 1)
+						if m.activated[ch] {
+							m.rec.Count("batches_executed_after_activation", 1)
+						}
 						execNote := fmt.Sprintf("batch %s/%d token %s:", bt.ChainReferenceID, bt.BatchNonce, cl.TokenContract)
 						for _, tx := range bt.Transactions {
 							st := "?"
@@ -886,6 +907,7 @@ func (m *mon) steps() []step {
 			return map[string]sdkmath.Int{t.Denom: amt}
 		}})
 	}
+	st = append(st, m.activationSteps(cur)...)
 	return st
 }
 
@@ -1003,6 +1025,13 @@ func (m *mon) checkStep(s step, after sdk.Context, failed bool, info, faultName 
 			}
 		}
 	}
+	if !failed && s.kind == stepActivate {
+		// an activation may hand open transfers back to their senders: refunded in full is a legal place
+		for _, id := range m.refundedByStep(m.observe(base), v, m.senderBalances(base), m.senderBalances(after)) {
+			saved[id] = m.ledger[id].Status
+			m.ledger[id].Status = "refunded"
+		}
+	}
 	if !failed && s.kind == "tx:SendToRemote" {
 		// the new transfer is not in the ledger: add it temporarily
 		for id := range v.place {
@@ -1069,7 +1098,7 @@ func cases(tier string, seed int64) []fw.Case {
 	}
 	for i := 0; i < n; i++ {
 		p := params{Stakes: stakeSets[i%len(stakeSets)], NUsers: 4 + i%3, NChains: 1 + i%2, Subs: 1 + i%2, MapUgrain: i%3 != 1,
-			Blocks: blocks, FaultBounds: fb, Tax: i%2 == 0, LateFeeChain: i%4 == 3}
+			Blocks: blocks, FaultBounds: fb, Tax: i%2 == 0, LateFeeChain: i%4 == 3, Activations: i%5 < 2}
 		if tier == "thorough" && i%8 == 7 {
 			p.SameERC20, p.NChains = true, 2
 		}
@@ -1082,8 +1111,8 @@ func init() {
 	fw.Register(&fw.Prop{
 		ID:    "C01",
 		Level: "fault_enumeration",
-		Rule: "seeded ABCI histories of the real app (send / cancel own+foreign+batched+unknown / batch build at h%50 / batch gas estimates + election / confirms / time-outs by block-time jumps / executed-batch claims incl. bogus and replayed / deposits to valid, invalid and blocked receivers and of unmapped tokens / tax changes), ledger oracle at every block boundary; " +
-			"at sampled boundaries with a non-empty pool or batch every bridge step (BuildOutgoingTXBatch, CancelOutgoingTXBatch, UpdateBatchGasEstimate, OutgoingTxBatchExecuted, whole skyway EndBlock at the next h%50 and with a time jump, SendToRemote / CancelSendToRemote txs with baseapp semantics, attested deposit through the real handler) is run on a throw-away fork once fault-free and then once per collaborator call k with exactly the k-th call failed. " +
+		Rule: "seeded ABCI histories of the real app (send / cancel own+foreign+batched+unknown / batch build at h%50 / batch gas estimates + election / confirms / time-outs by block-time jumps / executed-batch claims incl. bogus and replayed / deposits to valid, invalid and blocked receivers and of unmapped tokens / tax changes; in 2 of 5 histories the served chains are re-activated in mid-history - newer compass, retried upload with a new unique id, re-announcement - at boundaries where the chain has open batches and pooled transfers or a batch with an elected gas estimate), ledger oracle at every block boundary and right after every activation; " +
+			"at sampled boundaries with a non-empty pool or batch every bridge step (BuildOutgoingTXBatch, CancelOutgoingTXBatch, UpdateBatchGasEstimate, OutgoingTxBatchExecuted, whole skyway EndBlock at the next h%50 and with a time jump, SendToRemote / CancelSendToRemote txs with baseapp semantics, attested deposit through the real handler and through the tally, re-activation of every chain that has pooled or batched transfers) is run on a throw-away fork once fault-free and then once per collaborator call k with exactly the k-th call failed. " +
 			"evaluations = oracle comparisons (escrow per denom, placement per transfer, supply per denom, digest on failure); distinct_nontrivial = distinct ledger abstractions (status x place x denom x chain counts) seen at boundaries + distinct (step, failed call, k, outcome) fault points",
 		Assumptions: []string{
 			"faults are collaborator ERRORS at the hooked interface calls (bank: SendCoinsFromAccountToModule/ModuleToAccount/ModuleToModule/MintCoins/BurnCoins; evm: PickValidatorForMessage/GetChainInfo/GetEthAddressByValidator/GetValidatorAddressByEthAddress); crashes below ABCI are the SDK's atomic commit",
@@ -1092,7 +1121,7 @@ func init() {
 		},
 		Cases:       cases,
 		Run:         run,
-		MinCounters: []string{"transfers_accepted", "transfers_refunded", "batches_built", "fault_points", "fault_points_step_failed", "deposits_minted"},
+		MinCounters: []string{"transfers_accepted", "transfers_refunded", "batches_built", "fault_points", "fault_points_step_failed", "deposits_minted", "activations_with_open_batches", "steps:ActivateChainReferenceID"},
 		TimeoutS:    1500,
 	})
 }
